@@ -36,17 +36,17 @@ func (p *concPay) Clone() Payload {
 }
 
 type pfModel struct {
-	Func      *ast.FuncDecl
-	Chans     map[types.Object]string // channel variable (or the parameter it is passed as) -> name
-	Files     map[types.Object]bool   // the input and the parameters it is passed as
-	Reader    *goBody
-	Parser    *goBody
-	ReaderGo  *ast.GoStmt
-	ParserGo  *ast.GoStmt
-	NGo       int
-	FileParam types.Object
-	ProgObj   types.Object
-	ChanFields map[string]string // struct field holding a channel ("<fileParse>.rerr") -> name
+	Func       *ast.FuncDecl
+	Chans      map[types.Object]string // channel variable (or the parameter it is passed as) -> name
+	Files      map[types.Object]bool   // the input and the parameters it is passed as
+	Reader     *goBody
+	Parser     *goBody
+	ReaderGo   *ast.GoStmt
+	ParserGo   *ast.GoStmt
+	NGo        int
+	FileParam  types.Object
+	ProgObj    types.Object
+	ChanFields map[string]string     // struct field holding a channel ("<fileParse>.rerr") -> name
 	ChanElem   map[string]types.Type // name -> element type
 }
 
@@ -424,6 +424,37 @@ func (c *Ctx) concHooks(m *pfModel) Hooks {
 		if m.ProgObj != nil && c.isObj(lhs, m.ProgObj) {
 			pay(st).ev("store prog")
 			return true
+		}
+		// a field of a local message value (a variable of a channel's element type): the message is built up field
+		// by field and published by its send
+		if sel, ok := lhs.(*ast.SelectorExpr); ok && op == token.ASSIGN {
+			if id, isID := stripParens(sel.X).(*ast.Ident); isID {
+				if lo, isVar := c.objOf(id).(*types.Var); isVar && !lo.IsField() && lo.Parent() != nil && lo.Parent() != lo.Pkg().Scope() {
+					isMsg := false
+					for _, et := range m.ChanElem {
+						if et != nil && types.Identical(et, lo.Type()) {
+							if _, isStruct := et.Underlying().(*types.Struct); isStruct {
+								isMsg = true
+							}
+						}
+					}
+					if isMsg {
+						cur, has := st.Env[lo]
+						if !has || cur.K != vStruct {
+							cur = Value{K: vStruct, T: lo.Type(), Fields: map[string]Value{}}
+						} else {
+							nf := map[string]Value{}
+							for k, fv := range cur.Fields {
+								nf[k] = fv
+							}
+							cur.Fields = nf
+						}
+						cur.Fields[sel.Sel.Name] = v
+						st.Env[lo] = cur
+						return true
+					}
+				}
+			}
 		}
 		// the program handed over through a field of the shared state
 		if sel, ok := lhs.(*ast.SelectorExpr); ok && v.K == vTag && v.Tag == "prog" {
@@ -861,6 +892,16 @@ func ruleParserProtocol(c *Ctx, r *Report, rule string) {
 				return true
 			}
 		}
+		// a step of ParseFile written as a method of the struct that holds its channels (wait, collect)
+		if rv := sig.Recv(); rv != nil {
+			if stt, ok := derefType(rv.Type()).Underlying().(*types.Struct); ok {
+				for i := 0; i < stt.NumFields(); i++ {
+					if _, isCh := stt.Field(i).Type().Underlying().(*types.Chan); isCh {
+						return true
+					}
+				}
+			}
+		}
 		return false
 	}
 	in := newInterp(c, hk)
@@ -1100,16 +1141,44 @@ func ruleChunkImmutable(c *Ctx, r *Report, rule string) {
 	// Parse hands its input over as it is: the one send is string(input)
 	if pf != nil {
 		okSend, sends := false, 0
-		ast.Inspect(pf.Body, func(n ast.Node) bool {
-			ss, isS := n.(*ast.SendStmt)
-			if !isS {
-				return true
+		isInputString := func(e ast.Expr) bool {
+			call, isC := stripParens(e).(*ast.CallExpr)
+			if !isC || len(call.Args) != 1 {
+				return false
 			}
-			sends++
-			if call, isC := ss.Value.(*ast.CallExpr); isC && len(call.Args) == 1 {
-				if tv, okT := c.infoFor(call).Types[call.Fun]; okT && tv.IsType() && types.TypeString(tv.Type, nil) == "string" && c.isObj(call.Args[0], c.paramObj(pf, 0)) {
+			tv, okT := c.infoFor(call).Types[call.Fun]
+			return okT && tv.IsType() && types.TypeString(tv.Type, nil) == "string" && c.isObj(call.Args[0], c.paramObj(pf, 0))
+		}
+		ast.Inspect(pf.Body, func(n ast.Node) bool {
+			switch n := n.(type) {
+			case *ast.SendStmt:
+				sends++
+				if isInputString(n.Value) {
 					okSend = true
 				}
+			case *ast.CallExpr:
+				// the channel is prepared by a helper: its sends count, and the one sending a parameter that is given string(input)
+				fn, isF := c.callee(n).(*types.Func)
+				if !isF || fn.Pkg() == nil || fn.Pkg().Path() != bclPath {
+					return true
+				}
+				hd := c.funcDecls[fn]
+				if hd == nil || hd.Body == nil {
+					return true
+				}
+				ast.Inspect(hd.Body, func(hn ast.Node) bool {
+					ss, isS := hn.(*ast.SendStmt)
+					if !isS {
+						return true
+					}
+					sends++
+					for i, a := range n.Args {
+						if po := c.paramObj(hd, i); po != nil && c.isObj(ss.Value, po) && isInputString(a) {
+							okSend = true
+						}
+					}
+					return true
+				})
 			}
 			return true
 		})
